@@ -43,7 +43,7 @@ mod verif_kani {
         let mut out = io::sink();
         let r = s.format(&Nop, &mut out);
         assert!(r.is_ok());
-        let rec = s.format_mut();
+        let rec = &s.format;
         assert!(rec.plain_calls == 0);
         if draw <= rate {
             assert!(rec.sampled_calls == 1);
